@@ -93,6 +93,24 @@ Proof.
   destruct (leave r (s_id s)). exact L.
 Qed.
 
+Theorem publish_ppt_violation_detaches : forall r s req opts topic args kw oracle,
+    publish_aborts (r_cfg r) s opts topic = true ->
+    ~ client (fst (handle r s (CPublish req opts topic args kw) oracle)) (s_id s).
+Proof.
+  intros r s req opts topic args kw oracle H. cbn [handle].
+  destruct (publish _ _ _ _ _ _ _ _ _ _ _) as [[b pg] o]. rewrite H.
+  pose proof (leave_detaches r (s_id s)) as L. destruct (leave r (s_id s)). exact L.
+Qed.
+
+Theorem yield_ppt_violation_detaches : forall r s req opts args kw oracle,
+    yield_aborts (lookup r) (r_dealer r) (s_id s) req opts = true ->
+    ~ client (fst (handle r s (CYield req opts args kw) oracle)) (s_id s).
+Proof.
+  intros r s req opts args kw oracle H. cbn [handle].
+  destruct (sync_yield _ _ _ _ _ _ _) as [d o]. rewrite H.
+  pose proof (leave_detaches (r_set_dealer r d) (s_id s)) as L. destruct (leave (r_set_dealer r d) (s_id s)). exact L.
+Qed.
+
 Theorem kill_detaches : forall sids r g x,
     In x sids -> ~ client (fst (kill_sessions r sids g)) x.
 Proof.
@@ -159,7 +177,7 @@ Theorem own_calls_abandoned : forall r sid k0 callee q inv opts args kw,
     cget (d_calls (r_dealer r')) (inv_call inv) = None /\
     cget (d_bycall (r_dealer r')) (inv_call inv) = None /\
     (cget (d_invs (r_dealer r')) (callee, q) = None ->
-     sync_yield (r_dealer r') callee q opts args kw =
+     forall lk, sync_yield lk (r_dealer r') callee q opts args kw =
      (r_dealer r', if opt_bool opts "progress" then [(callee, RInterrupt q [("mode", vstr "killnowait")])] else [])).
 Proof.
   intros r sid k0 callee q inv opts args kw W I C Hi Hs r'. subst r'.
@@ -171,7 +189,7 @@ Proof.
     destruct (N7 _ _ E) as [H _]. congruence.
   - destruct (cget (d_bycall (r_dealer (fst (leave r sid)))) (inv_call inv)) eqn:E; [|reflexivity].
     destruct (N8 _ _ E) as [H _]. congruence.
-  - apply sync_yield_unknown.
+  - intros H lk. now apply sync_yield_unknown.
 Qed.
 
 (** ** empty_when_idle (partial: the session-indexed and call tables) *)
